@@ -41,6 +41,13 @@ make sure the wider generator raises no alarm there.
 |-------|-----------|-----|
 {summary}
 
+The six changes that the property's own quick check does not report today: two are reached by
+the thorough tier only, by construction (C09-r4-m1: 2^24 uses of an ideal library channel;
+C16-r4-m2: 2^31 accumulated blocks); one is reported by C09 instead of C02 (C02-r6-m2: rows of
+several blocks, which C02 does not generate); three are not detected and are listed with the
+reason in §11 (C09-r5-m1 process-wide default dtype, C07-r6-m2 float16 signals, C12-r6-m2
+pre-emption inside a component's forward).
+
 | id | the change (what it needs to manifest is in seeded/<id>/notes.md) | first run | now |
 |----|--------------------------------------------------------------------|-----------|-----|
 '''
